@@ -396,11 +396,14 @@ Proof.
     destruct (sdrive_lift _ IH _ _ _ _ _ _ _ _ _ _ _ Hn He Hr E) as (W & Lf).
     destruct ox as [[[[its fl] p1] e1]|]; injection H as <- <-; (split; auto); intros a Ha; cbn [Sem.sem]; now rewrite (Lf a Ha).
   - (* CollectExactly *)
-    match type of H with context [sdrive toks spn (sem n) ?f i ctx ?st ?lim [] [] p r] =>
-      destruct (sdrive toks spn (sem n) f i ctx st lim [] [] p r) as [[ox r1]|] eqn:E; [|discriminate] end.
-    destruct (sdrive_lift _ IH _ _ _ _ _ _ _ _ _ _ _ Hn He Hr E) as (W & Lf).
-    destruct ox as [[[[its fl] p1] e1]|]; [destruct fl|]; injection H as <- <-; (split; [auto with wf|]); intros a Ha;
-      cbn [Sem.sem]; rewrite (Lf a Ha), ?fail_at_lift by auto with wf; reflexivity.
+    destruct n0 as [|k0]; [destruct (its_fail (mk_iter i ctx)) as [e0|] eqn:Ef|].
+    { destruct (IH _ _ _ _ _ _ (eq_refl : norec (TryMap PFalse FId e0 Empty) = true) He Hr H) as (W & Lf). split; auto.
+      intros a Ha. cbn [Sem.sem]. rewrite Ef. exact (Lf a Ha). }
+    all: match type of H with context [sdrive ?tk ?sp ?rn ?f ?i0 ?c0 ?st ?lim [] [] ?p0 ?r0] =>
+      destruct (sdrive tk sp rn f i0 c0 st lim [] [] p0 r0) as [[ox r1]|] eqn:E; [|discriminate] end;
+      destruct (sdrive_lift _ IH _ _ _ _ _ _ _ _ _ _ _ Hn He Hr E) as (W & Lf);
+      destruct ox as [[[[its fl] p1] e1]|]; [destruct fl|]; injection H as <- <-; (split; [auto with wf|]); intros a Ha;
+      cbn [Sem.sem]; rewrite ?Ef, (Lf a Ha), ?fail_at_lift by auto with wf; reflexivity.
   - (* Foldl *) stepL IH H. destruct o0 as [[[v p1] e1]|]; [|injection H as <- <-; (split; auto); intros a Ha; fin a Ha].
     stepD IH H. destruct o0 as [[[[its fl] p2] e2]|]; injection H as <- <-; (split; auto); intros a Ha; fin a Ha.
   - (* Foldr *) stepD IH H. destruct o0 as [[[[its fl] p1] e1]|]; [|injection H as <- <-; (split; auto); intros a Ha; fin a Ha].
